@@ -10,13 +10,14 @@ import (
 )
 
 func init() {
-	register("C08", "Structural clause decided: (1) every store that overwrites or drops a location holding key-exchange or DH-ratchet secrets (the exchange context c.ake, c.keys, ake.keys, the current/previous DH pairs, the exponent) is dominated by a wipe of that location, or the old value was moved (stored elsewhere as the very same object), or the location is provably fresh / nil — checked inter-procedurally for the allocation of a new exchange context; (2) the wipe helpers overwrite the same backing store with zeroes and every wipe() method covers every secret-capable field of its receiver type (a new field without a wipe line is reported); (3) End and the peer's disconnect wipe the exchange context, the session keys and the SMP state before dropping them; completion of an exchange wipes the old session keys before installing the new ones and the exchange context after the move; the temporary exponents are wiped after being copied; (4) sent text is kept only in the resend queue, which is emptied by storing nil (not by re-slicing), replaced by encrypted sends, and local copies of caller input are wiped on exit. Not decided: what the garbage collector or big.Int internals copy (SECURITY_ASSUMPTIONS 2–4), derived per-message keys, SMP exponents (dropped, not zeroed: not claimed), run-time reachability.",
+	register("C08", "Structural clause decided: (1) every store that overwrites or drops a location holding key-exchange or DH-ratchet secrets (the exchange context c.ake, c.keys, ake.keys, the current/previous DH pairs, the exponent) is dominated by a wipe of that location, or the old value was moved (stored elsewhere as the very same object), or the location is provably fresh / nil — checked inter-procedurally for the allocation of a new exchange context; (2) the wipe helpers overwrite the same backing store with zeroes and every wipe() method covers every secret-capable field of its receiver type (a new field without a wipe line is reported); (3) End and the peer's disconnect wipe the exchange context, the session keys and the SMP state before dropping them; completion of an exchange wipes the old session keys before installing the new ones and the exchange context after the move; the temporary exponents are wiped after being copied; (3b) every long-lived buffer filled from the randomness source is zeroed by End and by the peer's disconnect; (4) sent text is kept only in the resend queue, which is emptied by storing nil (not by re-slicing), replaced by encrypted sends, and local copies of caller input are wiped on exit. Not decided: what the garbage collector or big.Int internals copy (SECURITY_ASSUMPTIONS 2–4), derived per-message keys, SMP exponents (dropped, not zeroed: not claimed), run-time reachability.",
 		func(a *An) {
 			a.wipeBeforeKill("S.wipe-before-kill")
 			a.wipeHelpers("P.wipe-helpers")
 			a.wipeCoverage("P.wipe-coverage")
 			a.c08Lifecycle("S.lifecycle-wipes")
 			a.c08Plaintext("S.plaintext-retention")
+			a.randDestinations("S.rand-dest")
 		})
 }
 
@@ -36,6 +37,41 @@ func isSecretPath(abs string) bool {
 		return true
 	}
 	return false
+}
+
+// secretLeaves: the secret-bearing leaves below a container location; a container counts as wiped when each of them is.
+func secretLeaves(abs string) []string {
+	switch {
+	case abs == "Conversation.ake" || abs == "ake":
+		return []string{".secretExponent", ".r"}
+	case abs == "Conversation.keys" || strings.HasSuffix(abs, "ake.keys"):
+		return []string{".ourCurrentDHKeys.priv", ".ourPreviousDHKeys.priv"}
+	case strings.HasSuffix(abs, ".ourCurrentDHKeys") || strings.HasSuffix(abs, ".ourPreviousDHKeys"):
+		return []string{".priv"}
+	}
+	return []string{""}
+}
+
+func wipeCovers(wipes []string, rel, abs string) bool {
+	one := func(p string) bool {
+		for _, w := range wipes {
+			if w == p || strings.HasPrefix(p, w+".") || strings.HasPrefix(w, p+".") || strings.HasPrefix(w, p+"[") {
+				return true
+			}
+		}
+		return false
+	}
+	for _, w := range wipes {
+		if w == rel || strings.HasPrefix(rel, w+".") {
+			return true
+		}
+	}
+	for _, l := range secretLeaves(abs) {
+		if !one(rel + l) {
+			return false
+		}
+	}
+	return true
 }
 
 func (a *An) wipeBeforeKill(rule string) {
@@ -68,19 +104,20 @@ func (a *An) wipeBeforeKill(rule string) {
 				n++
 				key := ordinalKey(fn+"|store "+abs, cnt)
 				// (a) wiped before: a dominating instruction with a wipe effect on this path (or on all of it)
-				wiped := false
+				var wipes []string
 				for _, b2 := range f.Blocks {
 					for _, in2 := range b2.Instrs {
 						if !instrDominates(in2, st) {
 							continue
 						}
 						for _, ef := range a.E.InstrEffects(in2) {
-							if ef.Kind == EffWipe && (ef.Path == rel || strings.HasPrefix(ef.Path, rel+".") || strings.HasPrefix(rel, ef.Path+".")) {
-								wiped = true
+							if ef.Kind == EffWipe {
+								wipes = append(wipes, ef.Path)
 							}
 						}
 					}
 				}
+				wiped := wipeCovers(wipes, rel, abs)
 				// (b) moved: the old value (a load of the same location) was stored elsewhere before
 				moved := false
 				for _, b2 := range f.Blocks {
@@ -409,4 +446,215 @@ func (a *An) c08Plaintext(rule string) {
 		}
 	}
 	R.Check(n == 2, rule, "deferred-wipes", "Send and receiveUnit wipe their local copy", "", fmt.Sprintf("%d", n))
+}
+
+// typeAliases: "Conversation.keys.x.y" also reads "keyManagementContext.x.y" and so on: every suffix of a
+// type-rooted field path re-rooted at the (named) type of the field it passes through.
+func (a *An) typeAliases(abs string) []string {
+	out := []string{abs}
+	parts := strings.Split(abs, ".")
+	obj := a.C.Otr.Pkg.Scope().Lookup(parts[0])
+	if obj == nil {
+		return out
+	}
+	t := obj.Type()
+	for i := 1; i < len(parts); i++ {
+		name := parts[i]
+		if j := strings.Index(name, "["); j >= 0 {
+			name = name[:j]
+		}
+		for {
+			if p, ok := t.Underlying().(*types.Pointer); ok {
+				t = p.Elem()
+				continue
+			}
+			break
+		}
+		st, ok := t.Underlying().(*types.Struct)
+		if !ok {
+			return out
+		}
+		var ft types.Type
+		for k := 0; k < st.NumFields(); k++ {
+			if st.Field(k).Name() == name {
+				ft = st.Field(k).Type()
+			}
+		}
+		if ft == nil {
+			return out
+		}
+		t = ft
+		for {
+			if p, ok := t.Underlying().(*types.Pointer); ok {
+				t = p.Elem()
+				continue
+			}
+			break
+		}
+		if n, ok := t.(*types.Named); ok && i+1 < len(parts) {
+			out = append(out, n.Obj().Name()+"."+strings.Join(parts[i+1:], "."))
+		}
+	}
+	return out
+}
+
+// instancePaths: every place below Conversation where the type-rooted location abs ("T.f.g") exists
+// ("Conversation.keys.f.g", "Conversation.ake.keys.f.g"); a Conversation-rooted path is its own only instance.
+func (a *An) instancePaths(abs string) []string {
+	i := strings.Index(abs, ".")
+	if i < 0 {
+		return nil
+	}
+	root, rest := abs[:i], abs[i:]
+	if root == "Conversation" {
+		return []string{abs}
+	}
+	obj := a.C.Otr.Pkg.Scope().Lookup("Conversation")
+	if obj == nil {
+		return nil
+	}
+	var out []string
+	var walk func(t types.Type, path string, depth int)
+	walk = func(t types.Type, path string, depth int) {
+		for {
+			if p, ok := t.Underlying().(*types.Pointer); ok {
+				t = p.Elem()
+				continue
+			}
+			break
+		}
+		if n, ok := t.(*types.Named); ok && n.Obj().Name() == root && path != "Conversation" {
+			out = append(out, path+rest)
+			return
+		}
+		st, ok := t.Underlying().(*types.Struct)
+		if !ok || depth > 4 {
+			return
+		}
+		for k := 0; k < st.NumFields(); k++ {
+			walk(st.Field(k).Type(), path+"."+st.Field(k).Name(), depth+1)
+		}
+	}
+	walk(obj.Type(), "Conversation", 0)
+	return out
+}
+
+// randDestinations: every buffer that receives bytes drawn from the randomness source and that lives in a
+// long-lived structure (a field reachable from a parameter, not a local of the drawing function) is zeroed when the
+// conversation is ended locally and when the peer disconnects.
+func (a *An) randDestinations(rule string) {
+	R := a.R
+	// which parameter of which function is filled from the randomness source
+	type key struct {
+		f *ssa.Function
+		i int
+	}
+	dest := map[key]bool{}
+	isDest := func(call ssa.CallInstruction) (ssa.Value, bool) {
+		cc := call.Common()
+		if cc.IsInvoke() {
+			return nil, false
+		}
+		if sc := cc.StaticCallee(); sc != nil && sc.Pkg != nil && sc.Pkg.Pkg.Path() == "io" && sc.Name() == "ReadFull" && len(cc.Args) == 2 {
+			return cc.Args[1], true
+		}
+		for _, g := range a.C.Callees(call) {
+			g = a.C.unwrap(g)
+			for i := range g.Params {
+				if dest[key{g, i}] && i < len(cc.Args) {
+					return cc.Args[i], true
+				}
+			}
+		}
+		return nil, false
+	}
+	root := func(v ssa.Value) ssa.Value {
+		for {
+			switch x := v.(type) {
+			case *ssa.Slice:
+				v = x.X
+				continue
+			case *ssa.ChangeType:
+				v = x.X
+				continue
+			}
+			return v
+		}
+	}
+	for changed := true; changed; {
+		changed = false
+		for _, f := range a.C.FuncSeq {
+			for _, b := range f.Blocks {
+				for _, in := range b.Instrs {
+					call, ok := in.(ssa.CallInstruction)
+					if !ok {
+						continue
+					}
+					if v, ok := isDest(call); ok {
+						if p, isP := root(v).(*ssa.Parameter); isP {
+							k := key{f, paramIndex(p)}
+							if !dest[k] {
+								dest[k] = true
+								changed = true
+							}
+						}
+					}
+				}
+			}
+		}
+	}
+	var enders []*ssa.Function
+	for _, name := range []string{"(*Conversation).End", "(*Conversation).processDisconnectedTLV"} {
+		if f := a.MustFn(name); f != nil {
+			enders = append(enders, f)
+		}
+	}
+	n, persistent := 0, 0
+	for _, f := range a.C.FuncSeq {
+		for _, b := range f.Blocks {
+			for _, in := range b.Instrs {
+				call, ok := in.(ssa.CallInstruction)
+				if !ok {
+					continue
+				}
+				v, ok := isDest(call)
+				if !ok {
+					continue
+				}
+				if _, isP := root(v).(*ssa.Parameter); isP {
+					continue // forwarded: judged at the caller
+				}
+				n++
+				rel := a.C.rel(a.C.pathOf(v))
+				if !strings.HasPrefix(rel, "$") {
+					continue // a local buffer of the drawing function
+				}
+				persistent++
+				abs := a.C.abs(f, rel)
+				abs = strings.TrimSuffix(abs, "[]")
+				wants := a.instancePaths(abs)
+				for _, e := range enders {
+					covered := len(wants) > 0
+					for _, want := range wants {
+						one := false
+						for _, ef := range a.E.Of(e) {
+							if ef.Kind != EffWipe {
+								continue
+							}
+							al := a.C.abs(e, ef.Path)
+							if al == want || strings.HasPrefix(al, want+"[") || strings.HasPrefix(want, al+".") {
+								one = true
+							}
+						}
+						if !one {
+							covered = false
+						}
+					}
+					R.Check(covered, rule, a.C.Name(f)+"|"+abs+"|"+a.C.Name(e), "a long-lived buffer filled from the randomness source is zeroed when the session ends", a.C.InstrPos(in),
+						a.C.Name(f)+" draws random (secret) bytes into "+abs+", which "+a.C.Name(e)+" does not zero: the bytes stay reachable from the conversation after it ended")
+				}
+			}
+		}
+	}
+	R.Check(n >= 4 && persistent >= 1, rule, "sites", "draws from the randomness source found", "", fmt.Sprintf("%d draws, %d into long-lived buffers", n, persistent))
 }
